@@ -477,6 +477,7 @@ def cfgOfVia (via : String) : Option Cfg :=
   if via = "" then some .getResource
   else if via = "collection.Cache.Take" then some .cacheTake
   else if via = "cacheNode.Take" then some .doTake
+  else if via = "sqlc.QueryRow" then some .doTake      -- CachedConn.QueryRow(Ctx) → cache.TakeCtx → cacheNode.doTake
   else none
 
 def explain (mode via : String) (inj : List (Nat × Nat)) (h : List Obs) : Except Err (Nat × List String) :=
